@@ -92,7 +92,7 @@ def small_scope(tier):
 
 def gen_cases(tier):
     r = C.rng("C14")
-    n = 60000 if tier == "quick" else 1500000
+    n = 40000 if tier == "quick" else 1500000
     out = []
     for _ in range(n):
         o = PC.gen_opts(r)
